@@ -387,6 +387,22 @@ class Interp:
             v = NONE if st.value is None else self.eval(
                 st.value, env2, frame, cond, stmt_env=env2)
             return [Outcome('return', env2, v, cond, st.lineno)]
+        if isinstance(st, ast.Assert):
+            # assert c  ==  if not c: raise AssertionError
+            c = self.eval(st.test, env, frame, cond, stmt_env=env)
+            d = self.decide_in(c, cond)
+            if d is True:
+                return [Outcome('fall', env, None, cond)]
+            exc = intern(('call', 'AssertionError', (), ()))
+            pol = False
+            while c[0] == 'un' and c[1] == 'not':
+                c, pol = c[2], not pol
+            if d is False:
+                self.effect('raise', frame, st, cond, exc=exc)
+                return [Outcome('raise', env, exc, cond, st.lineno)]
+            self.effect('raise', frame, st, cond + ((c, pol),), exc=exc)
+            return [Outcome('raise', env, exc, cond + ((c, pol),), st.lineno),
+                    Outcome('fall', env, None, cond + ((c, not pol),))]
         if isinstance(st, ast.Raise):
             v = NONE if st.exc is None else ev(st.exc)
             self.effect('raise', frame, st, cond, exc=v)
